@@ -9,6 +9,7 @@ import (
 	"os"
 	"os/exec"
 	"strings"
+	"sync"
 	"sync/atomic"
 	"syscall"
 	"time"
@@ -22,6 +23,9 @@ var c10Phases = []string{"spin", "sleep", "read", "futex", "spawn"}
 
 func runChildJSON(ctxTimeout time.Duration, unpriv bool, env []string, sub string, in any, out any) (sig syscall.Signal, exit int, stderr string, err error) {
 	self, _ := os.Executable()
+	if unpriv {
+		self = publicSelf()
+	}
 	b, _ := json.Marshal(in)
 	cctx, cancel := context.WithTimeout(context.Background(), ctxTimeout)
 	defer cancel()
@@ -30,8 +34,9 @@ func runChildJSON(ctxTimeout time.Duration, unpriv bool, env []string, sub strin
 	cmd.Env = append(os.Environ(), env...)
 	var so, se bytes.Buffer
 	cmd.Stdout, cmd.Stderr = &so, &se
+	cmd.SysProcAttr = &syscall.SysProcAttr{Pdeathsig: syscall.SIGKILL}
 	if unpriv {
-		cmd.SysProcAttr = &syscall.SysProcAttr{Credential: &syscall.Credential{Uid: 65534, Gid: 65534}}
+		cmd.SysProcAttr.Credential = &syscall.Credential{Uid: 65534, Gid: 65534}
 	}
 	rerr := cmd.Run()
 	if ee, ok := rerr.(*exec.ExitError); ok {
@@ -123,14 +128,31 @@ func checkC10(tier, replay string) int {
 		}
 	}
 	var children, threadsChecked, probes, phaseVerified, spawnedDuring, refused int64
+	// children with many busy threads are given a proportional share of the machine
+	tokens := make(chan struct{}, 16)
+	var tokMu sync.Mutex
 	parallelFor(len(scripts), func(i int) {
 		sc := scripts[i]
+		w := len(sc.Phases)/4 + 1
+		if w > 16 {
+			w = 16
+		}
+		tokMu.Lock()
+		for k := 0; k < w; k++ {
+			tokens <- struct{}{}
+		}
+		tokMu.Unlock()
+		defer func() {
+			for k := 0; k < w; k++ {
+				<-tokens
+			}
+		}()
 		var rep tsyncReport
 		env := []string{}
 		if sc.LoaderMain {
 			env = append(env, "VERIF_LOCK_MAIN=1")
 		}
-		sig, exit, se, err := runChildJSON(60*time.Second, false, env, "tsync", sc, &rep)
+		sig, exit, se, err := runChildJSON(300*time.Second, false, env, "tsync", sc, &rep)
 		atomic.AddInt64(&children, 1)
 		if err != nil || sig != 0 || exit != 0 {
 			ctx.Flaky()
